@@ -1,8 +1,8 @@
 package xgen
 
 import (
-	"strings"
 	"math"
+	"strings"
 
 	"pgregory.net/rapid"
 
@@ -26,7 +26,7 @@ func CmpDoc() DocOpts {
 }
 
 var cmpNumLits = []string{"0", "1", "2", "10", "1.5", "3", "1000", "12"}
-var cmpStrLits = []string{"1", "2", "t", "10", "x y", "", "-3", "1e3", " 12 ", "12", "NaN"}
+var cmpStrLits = []string{"1", "2", "t", "10", "x y", "", "-3", "1e3", " 12 ", "12", "NaN", "it's"}
 
 // NumOperand draws a number-typed operand (incl. NaN and the infinities).
 func (g *G) NumOperand(ctx *xdoc.Node) xast.Expr {
@@ -312,7 +312,7 @@ func StrDoc() DocOpts {
 	return o
 }
 
-var strPool = []string{"", " ", "a", "ab", "abc", "a b", "  a  b ", "\t", "a\nb", "aab", "12", "-", "a-b", "AbC", "b", "c", "abcabc", "   "}
+var strPool = []string{"", " ", "a", "ab", "abc", "a b", "  a  b ", "\t", "a\nb", "aab", "12", "-", "a-b", "AbC", "b", "c", "abcabc", "   ", "it's", "a\"b", "'", "\""}
 
 // SubstrNum draws a start/length argument: -3 .. 9 in steps of 0.5.
 func (g *G) SubstrNum() xast.Expr {
@@ -335,7 +335,7 @@ func (g *G) StrArg(ctx *xdoc.Node, depth int, nodeOK bool) xast.Expr {
 		return g.FlatPath(xref.NodeSet{ctx})
 	}
 	if depth <= 0 || g.chance(4, "strleaf") {
-		return &xast.Str{S: g.pick(strPool, "spool")}
+		return &xast.Str{S: g.pick(strPool, "spool"), DQ: g.chance(2, "dq")}
 	}
 	return g.StrExpr(ctx, depth-1)
 }
